@@ -1,9 +1,11 @@
-(* C01 — VerifyDualProof with the repair proposed in fixes/C01-targetblalh.diff: in the branch
-   `sourceTxID >= TargetTxHeader.BlTxID`, when sourceTxID == TargetTxHeader.BlTxID the last leaf of
-   the target's tree (TargetBlTxAlh, proven by LastInclusionProof) is position sourceTxID and must
-   therefore be the source's own Alh. Everything else is verify_dual_proof unchanged (the one
-   transliteration verify_dual_proof_gen of Proofs/Model.v carries the repair under a flag).
+(* C01 — the two versions of VerifyDualProof carried by the one transliteration
+   verify_dual_proof_gen of Proofs/Model.v:
+     verify_dual_proof_fixed      = verify_dual_proof, the code as it stands (repair of /repo commit
+                                    d34d669: TargetBlTxAlh == sourceAlh when sourceTxID ==
+                                    TargetTxHeader.BlTxID in the branch sourceTxID >= BlTxID);
+     verify_dual_proof_unrepaired = the verifier before that commit (historical witness only).
    No proofs in this file. *)
 From V Require Export Proofs.Model.
 
 Definition verify_dual_proof_fixed (H : bytes -> bytes) := verify_dual_proof_gen H true.
+Definition verify_dual_proof_unrepaired (H : bytes -> bytes) := verify_dual_proof_gen H false.
